@@ -503,6 +503,28 @@ def C02_carries(prog, q, fn, op):
     return carries_barrier(prog, q, fn, op)
 
 
+def rule_SB18(rep, prog, q):
+    rid = rep.rule("C04-SB18", "a dispatch_barrier_sync that has to wait is queued as a BARRIER: in the barrier entry (_dispatch_barrier_sync_f_inline) both flag words handed "
+                   "to _dispatch_sync_f_slow - the one used for unlocking and the one stored in the queued waiter - carry DC_FLAG_BARRIER; a waiter queued without it is "
+                   "released by the drainer together with the readers behind it and the barrier body overlaps them (the _f entry point passes no flags of its own)", floor=2)
+    n = 0
+    for fn in prog.all_functions():
+        if "barrier_sync_f" not in fn.name:
+            continue
+        for c in calls_named(fn, "_dispatch_sync_f_slow"):
+            for idx in (3, 5):
+                if idx >= len(c.ops):
+                    continue
+                n += 1
+                rep.saw(fn)
+                rep.require(rid, C02_carries(prog, q, fn, c.ops[idx]), c.loc, fn.name, "barrier-waiter-queued-as-reader:%s:%d" % (fn.name, idx),
+                            "%s hands _dispatch_sync_f_slow a flags word (argument %d) that does not carry DC_FLAG_BARRIER: a dispatch_barrier_sync_f that finds the "
+                            "concurrent queue busy is enqueued as a reader, started together with the readers around it, and then unlocks the queue as a barrier it "
+                            "never held" % (fn.name, idx), sample={"site": c.loc, "arg": idx})
+    if n < 2:
+        rep.unknown(rid, "no slow-path call found in the barrier sync entry (%d)" % n)
+
+
 def rule_MP6(rep, prog, q):
     rid = rep.rule("C04-MP6", "dispatch_apply on a custom queue: every level whose width was reserved is relinquished with the same width expression after the work", floor=1)
     fn = prog.fn("_dispatch_apply_redirect")
@@ -760,6 +782,8 @@ def run(rep, tier="quick", srcdir=None, only=None):
         rule_MP16(rep, prog, q)
     if want("C04-AI17"):
         rule_AI17(rep, prog, q)
+    if want("C04-SB18"):
+        rule_SB18(rep, prog, q)
     if want("C03-MP2"):
         # a returning synchronous barrier unlocks only the levels it locked itself: completing a barrier the queue's own drainer still holds lets the readers'
         # fast paths in while the drainer runs the next barrier inline (shared with C03)
